@@ -132,21 +132,28 @@ pub fn install_panic_hook() {
 /// Message with digits / hex / quoted payloads normalised so signatures are stable.
 pub fn norm_msg(m: &str) -> String {
     let mut out = String::new();
-    let mut prev_hash = false;
-    for c in m.chars().take(160) {
-        if c.is_ascii_digit() {
-            if !prev_hash {
-                out.push('#');
+    let cs: Vec<char> = m.chars().collect();
+    let mut i = 0;
+    while i < cs.len() && out.chars().count() < 110 {
+        let c = cs[i];
+        if c == '0' && i + 1 < cs.len() && cs[i + 1] == 'x' {
+            // hex literal
+            i += 2;
+            while i < cs.len() && cs[i].is_ascii_hexdigit() {
+                i += 1;
             }
-            prev_hash = true;
-        } else {
-            prev_hash = false;
-            if c == '\n' {
-                out.push(' ');
-            } else {
-                out.push(c);
-            }
+            out.push('#');
+            continue;
         }
+        if c.is_ascii_digit() {
+            while i < cs.len() && cs[i].is_ascii_digit() {
+                i += 1;
+            }
+            out.push('#');
+            continue;
+        }
+        out.push(if c == '\n' { ' ' } else { c });
+        i += 1;
     }
     out
 }
